@@ -228,7 +228,7 @@ func TestAccountSigBinding(t *testing.T) {
 			names = append(names, n)
 		}
 		ops := []string{"field", "field", "field", "multi-field", "r-zero", "s-zero", "r-ge-n", "s-ge-n", "high-s-twin", "flip-recid", "v-other-chain", "v-huge", "v-27-28-transplant", "v-arith", "v-arith",
-			"sender-other-chain-param", "unprotected-resign", "other-chain-resign"}
+			"sender-other-chain-param", "unprotected-resign", "other-chain-resign", "unprotected-high-s-twin"}
 		op := rapid.SampledFrom(ops).Draw(t, "op")
 		label := op
 		mutField := func(name string) {
@@ -371,6 +371,36 @@ func TestAccountSigBinding(t *testing.T) {
 			vstat.Label("op_" + label)
 			if err == nil && f == signer.Addr {
 				vstat.Violation(t, P, "sig:valid-under-other-chain-parameter", "a %s transaction signed for chain parameter %v recovers its signer under another chain parameter", c.kind, types.SignParam)
+			}
+			return
+		case "unprotected-high-s-twin":
+			// The malleable twin (r, N-s, v^1) of a signature WITHOUT chain parameter (V = 27/28).  Such signatures are
+			// accepted on this chain (the listed finding); their high-s twin verifies for the same key and message and must
+			// be refused like the twin of a protected signature, or anybody can re-encode somebody's transaction into a
+			// second one with another hash.
+			nf := 6
+			if c.kind == "token" {
+				nf = 7
+			}
+			hh := crypto.Keccak256((&item{isList: true, list: root.list[:nf]}).encode())
+			sig, err := crypto.Sign(hh, signer.Key)
+			if err != nil {
+				t.Fatalf("sign: %v", err)
+			}
+			s0 := new(big.Int).SetBytes(sig[32:64])
+			at(root, c.sigPath(1)).str = new(big.Int).SetBytes(sig[:32]).Bytes()
+			at(root, c.sigPath(2)).str = new(big.Int).Sub(secpN, s0).Bytes()
+			at(root, c.sigPath(0)).str = []byte{27 + (sig[64] ^ 1)}
+			mut, derr = c.decode(root.encode())
+			vstat.NonTrivial(label + "|" + c.tx.Hash().Hex())
+			vstat.Label("op_" + label)
+			if derr != nil {
+				return
+			}
+			f, ferr := mut.From()
+			basic := w.App.CheckTx(mut, true)
+			if ferr == nil && f == signer.Addr {
+				vstat.Violation(t, P, "sig:malformed-values-accepted:legacy-high-s-twin", "the high-s twin (r, N-s, v^1) of a V=27/28 signature of a %s transaction recovers the key holder %s (basic check: %v)", c.kind, f.Hex(), basic)
 			}
 			return
 		case "unprotected-resign", "other-chain-resign":
